@@ -407,7 +407,7 @@ fn main() {
     let mut em = Emitter::new();
     let thorough = em.thorough();
     let seed = em.args.seed;
-    let maxlen: usize = if thorough { 6 } else { 5 };
+    let maxlen: usize = if thorough { 7 } else { 5 };
 
     // =========================================================================================
     // A. shift-like adaptors: exhaustive critical band of the lag, partially consumed inputs
@@ -495,7 +495,7 @@ fn main() {
     // =========================================================================================
     // B. map-like adaptors over every null pattern: ffill, bfill, fill, vclip, vabs
     // =========================================================================================
-    let blen = if thorough { 5 } else { 4 };
+    let blen = if thorough { 6 } else { 4 };
     for len in 0..=blen {
         for mask in 0..(1u32 << len) {
             let xs = series(len, mask);
@@ -955,7 +955,7 @@ fn main() {
     // =========================================================================================
     // L. random pipelines of depth 1..=6
     // =========================================================================================
-    let npipes = if thorough { 9000 } else { 1800 };
+    let npipes = if thorough { 30000 } else { 1800 };
     let mut r = Rng::new(seed ^ 0x5eed_c09);
     for _ in 0..npipes {
         let len = r.below(9);
